@@ -76,6 +76,10 @@ T_Pick == /\ IsEvent("pick")
           /\ G("pick.task", Known(E.task) \/ ("opaque" \in DOMAIN E /\ E.opaque))
           /\ Pick(E.task)
 
+SendOnUnbounded(c) ==
+  \/ pend[c] # NoOp /\ pend[c].op = "send" /\ pend[c].h \in DOMAIN hnd /\ hnd[pend[c].h].kind \in {"addr", "owning", "sender"}
+     /\ act[hnd[pend[c].h].a].cap = Unb /\ act[hnd[pend[c].h].a].rx = "open"
+  \/ pend[c] = NoOp /\ cli[c].op = "send" /\ cli[c].stage = "flush" /\ cli[c].ta \in Actor /\ act[cli[c].ta].cap = Unb
 T_Block == /\ IsEvent("block")
            /\ LET t == E.task IN
               /\ G("blk.cur", cur = t)
@@ -85,6 +89,9 @@ T_Block == /\ IsEvent("block")
               \* (quiescence is strict again: there no waiter may be left behind)
               \* (`woken`: the task returned Pending with its own wake-up already pending - a cooperative yield inside the
               \* library; it stays runnable, so nothing is claimed about what it waits for)
+              \* (C12: "on an unbounded mailbox send never waits": a send to an unbounded mailbox that does not return within
+              \* the poll in which it was called - not even for a cooperative yield)
+              /\ IF t \in Client /\ SendOnUnbounded(t) THEN G("blk.send.unbounded", FALSE) ELSE TRUE
               /\ IF ~Known(t) \/ yl \/ ("woken" \in DOMAIN E /\ E.woken) \/ ~CanStep(t) \/ (t \in Tasker /\ cli[t].stage = "reglock") THEN TRUE
                  ELSE IF t \in Client THEN GX("blk." \o cli[t].stage, SX(cli[t].ta), FALSE)
                  ELSE IF t \in DOMAIN tmr THEN G(IF ~Terminated(tmr[t].a) /\ LiveH(tmr[t].a, StrongKinds) THEN "blk.timer.alive" ELSE "blk.timer", FALSE)
